@@ -259,7 +259,7 @@ class BlockCollection(list):
         totalWeight = 0.0
         for b in self.getCandidateBlocks():
             # self.getWeight(b) incorporates the volume as does mass, so divide by volume not to double-count
-            weighting = b.p.massHmBOL * self.getWeight(b) / b.getVolume()
+            weighting = b.p.massHmBOL * self.getWeight(b) / (b.getVolume() or 1.0)
             totalWeight += weighting
             weightedBurnup += weighting * b.p.percentBu
         return 0.0 if totalWeight == 0.0 else weightedBurnup / totalWeight
